@@ -153,8 +153,8 @@ def trace_value(fn, bi, operand, depth=12):
             continue
         if rv[0] == "ref":
             chain.append(("ref", rv[1]))
-            if not rv[1]["p"]:
-                op = ["copy", rv[1]]
+            if not rv[1]["p"] or rv[1]["p"] == ["deref"]:
+                op = ["copy", {"l": rv[1]["l"], "p": [], "ty": rv[1]["ty"]}]  # (re)borrow: same value
                 continue
             return chain
         chain.append(("rvalue", rv))
@@ -163,4 +163,22 @@ def trace_value(fn, bi, operand, depth=12):
         if rv[0] == "use":
             continue
         return chain
+    return chain
+
+
+def deep_trace(fn, bi, operand, through=("deref", "clone", "borrow", "as_ref", "as_str"), limit=6):
+    """trace_value, continuing through calls that only re-borrow / copy their first argument"""
+    chain = []
+    b, op = bi, operand
+    for _ in range(limit):
+        ch = trace_value(fn, b, op)
+        chain.extend(ch)
+        if ch and ch[-1][0] == "call" and any(ch[-1][1].endswith(x) for x in through):
+            t = ch[-1][2]
+            b = next((i for i, tt in M.calls_in(fn) if tt is t), None)
+            if b is None or not t[2]:
+                break
+            op = t[2][0]
+            continue
+        break
     return chain
